@@ -4,8 +4,56 @@ package lib
 
 import (
 	"fmt"
+	"os"
 	"time"
 )
+
+// KBDoubleSuccessStress runs the aligned-commit stress of c01 (probabilistic: a check-then-write window inside
+// an engine's Commit can only be hit by true concurrency).
+func KBDoubleSuccessStress(w *Writer, args Args, engines []string) {
+	rounds := map[string]int{"quick": 300, "thorough": 2000, "search": 1000}[args.Tier]
+	if rounds == 0 {
+		rounds = 300
+	}
+	for _, e := range engines {
+		n, err := NewKBNode(e, args.Scratch)
+		if err != nil {
+			w.Fail(ImplFailure{CaseID: -1, What: "cannot open engine " + e + ": " + err.Error()})
+			continue
+		}
+		what, detail, err := n.DoubleSuccessStress(4, rounds)
+		if err != nil {
+			w.Fail(ImplFailure{CaseID: -1, What: fmt.Sprintf("double-success stress on %s: %v", e, err)})
+		} else if what != "" {
+			w.Fail(ImplFailure{CaseID: -1, What: "two writers conditioned on the same revision both succeeded on " + e + " — " + what, Case: detail})
+		}
+		w.Stats.Extra["double_success_stress_rounds_"+e] = rounds
+		n.Close()
+	}
+}
+
+// KBListHeaderStress runs the List(rev=0)-vs-writer race of c02 (probabilistic).
+func KBListHeaderStress(w *Writer, args Args, engines []string) {
+	d := map[string]time.Duration{"quick": 1200 * time.Millisecond, "thorough": 15 * time.Second, "search": 5 * time.Second}[args.Tier]
+	if d == 0 {
+		d = 1200 * time.Millisecond
+	}
+	for _, e := range engines {
+		n, err := NewKBNode(e, args.Scratch)
+		if err != nil {
+			w.Fail(ImplFailure{CaseID: -1, What: "cannot open engine " + e + ": " + err.Error()})
+			continue
+		}
+		lists, what, detail, err := n.ListHeaderStress(d)
+		if err != nil {
+			w.Fail(ImplFailure{CaseID: -1, What: fmt.Sprintf("list/header stress on %s: %v", e, err)})
+		} else if what != "" {
+			w.Fail(ImplFailure{CaseID: -1, What: "a List at revision 0 returned data newer than its header on " + e + " — " + what, Case: detail})
+		}
+		w.Stats.Extra["list_header_stress_lists_"+e] = lists
+		n.Close()
+	}
+}
 
 // KBCompactRaces adds the compaction-vs-create race (c01) on the given engines.
 func KBCompactRaces(w *Writer, args Args, engines []string) {
@@ -85,6 +133,7 @@ type KBProfile struct {
 	Search     int
 	Exhaustive bool                // thorough: all interleavings of 2 writers x 2 ops
 	WrapCoq    func(string) string // optional constructor around the sched_case term
+	SmallCache bool                // also run the out-of-order case on a node with watch cache size 64
 }
 
 func genReq(r *Rand, nkeys int, t, j int, malformed int) KReq {
@@ -212,6 +261,26 @@ func KBCorpus() []KBSpec {
 			Progs: [][]KReq{{{Op: OpDelete, Sym: SymCorrect}}, {{Op: OpCreate, Key: 1, Val: v("other")}}},
 			Pick:  FixedPick([][2]int{{0, 0}, {0, 0}, {1, 0}, {0, 0}})},
 	)
+	// a second yield point inside the batch, right before the engine Commit: compare and write must be one
+	// critical section on every engine
+	cs = append(cs,
+		KBSpec{Note: "update A stages its batch and parks before the engine Commit, update B naming the same revision runs meanwhile: at most one of them is applied",
+			Init: []int{InitLive}, Fix: kbFix, ParkCommit: []int{0},
+			Progs: [][]KReq{{{Op: OpUpdate, Val: v("A"), Sym: SymCorrect}}, {{Op: OpUpdate, Val: v("B"), Sym: SymCorrect}}},
+			Pick:  FixedPick([][2]int{{0, 0}, {0, 0}, {1, 0}, {1, 0}, {0, 0}})},
+		KBSpec{Note: "create A stages its batch and parks before the engine Commit, create B of the same absent key runs meanwhile",
+			Init: []int{InitNever}, Fix: kbFix, ParkCommit: []int{0},
+			Progs: [][]KReq{{{Op: OpCreate, Val: v("A")}}, {{Op: OpCreate, Val: v("B")}}},
+			Pick:  FixedPick([][2]int{{0, 0}, {0, 0}, {1, 0}, {1, 0}, {0, 0}})},
+		KBSpec{Note: "guarded delete A parks before the engine Commit, update B naming the same revision runs meanwhile",
+			Init: []int{InitLive2}, Fix: kbFix, ParkCommit: []int{0},
+			Progs: [][]KReq{{{Op: OpDelete, Sym: SymCorrect}}, {{Op: OpUpdate, Val: v("B"), Sym: SymCorrect}}},
+			Pick:  FixedPick([][2]int{{0, 0}, {0, 0}, {0, 0}, {1, 0}, {1, 0}, {0, 0}})},
+		KBSpec{Note: "both updates naming one revision park before the engine Commit, then commit one after the other",
+			Init: []int{InitLive}, Fix: kbFix, ParkCommit: []int{0, 1},
+			Progs: [][]KReq{{{Op: OpUpdate, Val: v("A"), Sym: SymCorrect}}, {{Op: OpUpdate, Val: v("B"), Sym: SymCorrect}}},
+			Pick:  FixedPick([][2]int{{0, 0}, {0, 0}, {1, 0}, {1, 0}, {1, 0}, {0, 0}})},
+	)
 	return append(cs, []KBSpec{
 		{Note: "two creators on one absent key, commits interleaved",
 			Init: []int{InitNever}, Fix: kbFix,
@@ -312,6 +381,61 @@ func KBDrive(w *Writer, args Args, prof KBProfile) {
 				continue // the TiKV client observes the request context inside Commit itself
 			}
 			run(e, spec, "corpus")
+		}
+	}
+	if prof.SmallCache {
+		// a node started with --watch-cache-size=64: one create is held at the gate while 200 later-allocated
+		// requests finish; the result slots must still be indexed by the full window
+		if n, err := NewKBNodeCfg(EngMem, args.Scratch, 64); err != nil {
+			w.Fail(ImplFailure{CaseID: -1, What: "cannot open small-cache node: " + err.Error()})
+		} else {
+			nodes["small-cache"] = n
+			many := []KReq{}
+			sched := [][2]int{{0, 0}}
+			for i := 0; i < 200; i++ {
+				many = append(many, KReq{Op: OpCreate, Key: 1, Val: v(fmt.Sprintf("n%d", i))})
+				sched = append(sched, [2]int{1, 0})
+			}
+			sched = append(sched, [2]int{1, 0}, [2]int{0, 0})
+			spec := KBSpec{Note: "watch cache size 64: a create is held before its batch while 200 later requests finish; the read revision must stay below it",
+				Init: []int{InitNever, InitNever}, Fix: kbFix,
+				Progs: [][]KReq{{{Op: OpCreate, Key: 0, Val: v("held")}}, many}, Pick: FixedPick(sched)}
+			c, err := n.RunCase(spec)
+			if err != nil {
+				w.Fail(ImplFailure{CaseID: w.Len(), What: fmt.Sprintf("small-cache case: %v", err), Case: c.JSON()})
+			} else {
+				coq := c.Coq()
+				if prof.WrapCoq != nil {
+					coq = prof.WrapCoq(coq)
+				}
+				w.Add(Case{Coq: coq, JSON: c.JSON(), Kind: "small-cache/memkv", Trivial: false, Outcomes: c.Outcomes()})
+			}
+		}
+	}
+	if prof.SmallCache && (args.Tier == "thorough" || os.Getenv("VERIF_C04_IDLE") == "1") {
+		// a write-free minute: the sequencer is held at its idle point (right after it found the next slot
+		// empty) from second 55 to second 62 while one create completes; afterwards the read revision must
+		// reach that create. ~65 s, thorough tier only (or VERIF_C04_IDLE=1).
+		if n, err := NewKBNode(EngMem, args.Scratch); err != nil {
+			w.Fail(ImplFailure{CaseID: -1, What: "cannot open idle node: " + err.Error()})
+		} else {
+			nodes["idle-minute"] = n
+			time.Sleep(55 * time.Second)
+			KBSeqPark(true)
+			time.Sleep(5 * time.Millisecond)
+			n.caseNo++
+			r1 := n.Do(KReq{Op: OpCreate, Val: v("quiet1")}, n.Key(0))
+			time.Sleep(7 * time.Second)
+			KBSeqPark(false)
+			ok1 := !r1.Err && r1.Succ && n.WaitRev(r1.Hdr, 3*time.Second)
+			r2 := n.Do(KReq{Op: OpCreate, Val: v("quiet2")}, n.Key(1))
+			ok2 := !r2.Err && r2.Succ && n.WaitRev(r2.Hdr, 3*time.Second)
+			if !ok1 || !ok2 {
+				n.Dead = true
+				w.Fail(ImplFailure{CaseID: -1, What: fmt.Sprintf("after a write-free minute the read revision is stuck at %d although creates at %d and %d were acknowledged", n.B.GetCurrentRevision(), r1.Hdr, r2.Hdr),
+					Case: map[string]interface{}{"engine": EngMem, "idle_seconds_before_write": 55, "sequencer_held_at_seq.idle_seconds": 7, "create1": r1.JSON(), "create2": r2.JSON(), "read_revision": n.B.GetCurrentRevision()}})
+			}
+			w.Stats.Extra["idle_minute_case"] = "run"
 		}
 	}
 	nMem, nOther := prof.Quick, prof.QuickOther
